@@ -25,6 +25,7 @@ EXPLANATION = (
   " (TAB-compute-order) every compute() runs after the computes of the properties it reads;"
   " (STATE-alias / STATE-global) no function of the anchored modules mutates a module- or class-level container, rebinds module / class state or mutates a mutable default argument, so a result never depends on earlier calls;"
   " (PAIR-compute) every uncomputed value copied onto the ISD element is registered, with the same property, in the set handed to _compute_styles;"
+  ' (ORD-postorder) the recursive pruning of empty spans decides whether a child is empty only after it has unconditionally recursed into that child, so a span whose content is pruned does not survive childless;'
 )
 RULE_TEXT = "per length-bearing property, per mutator call on ISD-owned values, per return site, per document parameter"
 UNDECIDED = ["white-space collapsing results", "emptiness pruning as semantics (no empty text node, no childless span)",
@@ -415,4 +416,6 @@ def run(ctx):
   ctx.floor("COMPUTED", "style-dependent decisions after style computation", nc, 2)
   # computed lengths are root-relative only if every compute() sees already-computed dependencies
   isdrules.check_compute_order(ctx)
+  npo = sum(trav.check_postorder_emptiness(ctx, g) for g in ctx.ix.funcs_in("ttconv.isd"))
+  ctx.floor("ORD-postorder", "recursive pruning steps that test a child's emptiness", npo, 1)
   common.check_history_independence(ctx, common.CORE)
